@@ -142,6 +142,50 @@ def r20_2(ck: Check) -> None:
     ck.expect_count("R20.2", "message-driven functions", n, 14)
 
 
+def r20_13(ck: Check) -> None:
+    """what a peer says never re-files a connection: the table of live connections is written when a socket is accepted / dialled and
+    when a connection ends, never from a message handler - a handler that files its connection under a key the peer chose (the port
+    of its greeting) can displace somebody else's connection."""
+    cg = call_graph(ck)
+    callees: Dict[str, Set[str]] = {}
+    for callee, cs in cg.items():
+        for c in cs:
+            callees.setdefault(c, set()).add(callee)
+    root = CRP + "handle_message_received"
+    seen = {root}
+    stack = [root]
+    while stack:
+        f = stack.pop()
+        for g in callees.get(f, ()):
+            g2 = g
+            if g.startswith("?."):
+                continue
+            if g2 not in seen:
+                seen.add(g2)
+                stack.append(g2)
+    NMQ = "skepticoin.networking.manager.NetworkManager"
+    filed = NMQ + ".handle_peer_connected"
+    ck.repo.func(filed)
+    construct = "no message handler files a connection (handle_peer_connected is reached from connection set-up only)"
+    direct = sorted(c for c in cg.get(filed, set()) | cg.get("?.handle_peer_connected", set()) if c in seen)
+    if direct:
+        ck.violated("R20.13", construct, "reached from %s, which runs on a peer's message: the connection is filed under what the message says, and "
+                    "an existing connection under that key is dropped" % [short(x) for x in direct], ck.repo.func(direct[0]).loc)
+    else:
+        ck.ok("R20.13", construct, "%d message-driven functions" % len(seen), ck.repo.func(filed).loc)
+    tw = [w for w in typed_writes(ck.walker, ck.repo) if w.owner == NMQ and w.attr == "connected_peers" and w.func in seen
+          and not w.func.endswith(".handle_peer_disconnected") and w.func != filed]
+    construct = "no message handler writes the table of live connections itself"
+    if tw:
+        for w in tw[:3]:
+            ck.violated("R20.13", construct, "%s (%s) in %s" % (w.attr, w.kind, short(w.func)), w.ev.loc)
+    else:
+        ck.ok("R20.13", construct, "", "")
+    ck.stats["message-driven functions (R20.13)"] = len(seen)
+    if len(seen) < 10:
+        ck.unknown("R20.13", "instances", "only %d functions found below handle_message_received" % len(seen))
+
+
 def r20_3(ck: Check) -> None:
     s = ck.summ(CRP + "handle_message_received", 0)
     sp = Spec(s, ("self", "header", "message"))
@@ -600,6 +644,7 @@ def check(ck: Check) -> None:
     ck.run("R20.10", "nothing outside the per-connection catch-all decodes what peers sent", lambda: r20_10(ck))
     ck.run("R20.11", "per-connection state is per connection", lambda: r20_11(ck))
     ck.run("R20.12", "the catch-all's handlers cannot fail themselves", lambda: r20_12(ck))
+    ck.run("R20.13", "what a peer says never re-files a connection", lambda: r20_13(ck))
     ck.run("R20.8", "the event loop ends only through its flag, dispatches every ready socket, and never waits unboundedly", lambda: r20_8(ck))
     from .c09 import r09_5
     ck.run("R09.5", "buffering a block before validation writes nothing", lambda: r09_5(ck))
